@@ -320,7 +320,8 @@ func builtinStringSearch(call FunctionCall) Value {
 	if result == nil {
 		return intValue(-1)
 	}
-	return intValue(result[0])
+	// The engine reports a byte offset; 15.5.4.12 wants the code unit offset.
+	return intValue(utf16Length(target[:result[0]]))
 }
 
 func builtinStringSplit(call FunctionCall) Value {
